@@ -521,6 +521,41 @@ def run_derivation(case):
     return R(None, dname, nontrivial=True, steps=n, tags={dname, base_term[0], mode})
 
 
+# ---------------------------------------------------------------------------
+# x & m with a left operand that has no & of its own (a literal, a type, Val, a callable): Python asks the RIGHT operand - the result is And(x, m)
+
+def reflected_menu():
+    lefts = {'Val(1)': lambda: Val(1), 'Val(None)': lambda: Val(None), 'int-type': lambda: int, 'literal-3': lambda: 3, 'callable': lambda: Pred('true'), 'str': lambda: 'k'}      # (a T expression records & as an operation of its own)
+    rights = {'M': lambda: M, 'M>0': lambda: M > 0, 'M==3': lambda: M == 3, 'M(T[k])>0': lambda: M(T['k']) > 0, 'M>0&M<9': lambda: (M > 0) & (M < 9)}
+    return lefts, rights
+
+
+def run_reflected(case):
+    lname, rname, mode, tname = case
+    lefts, rights = reflected_menu()
+    target = mk_target(tname)
+
+    def outcome(spec):
+        try:
+            v = glom(mk_target(tname), Match(spec) if mode == 'match' else spec)
+            return ('ok', type(v).__name__, repr(v))
+        except Exception as e:
+            return ('err', [c.__name__ for c in type(e).__mro__ if c.__name__ in ('MatchError', 'GlomError', 'TypeError', 'PathAccessError')][:2])
+    try:
+        written = lefts[lname]() & rights[rname]()
+    except TypeError as e:
+        return R(None, 'not-supported', nontrivial=False)
+    want, got = outcome(And(lefts[lname](), rights[rname]())), outcome(written)
+    if want != got:
+        return R({'expected': 'x & m is And(x, m): %r' % (want,), 'observed': '%r gives %r' % (written, got), 'target': repr(target), 'mode': mode}, 'reflected')
+    return R(None, want[0], nontrivial=True, steps=2, tags={lname, mode})
+
+
+def gen_reflected():
+    lefts, rights = reflected_menu()
+    return [[l, r, mode, t] for l in lefts for r in rights for mode in ('auto', 'match') for t in TARGETS]
+
+
 def gen_derivations(tier):
     cases = []
     for mode in ('auto', 'match'):
@@ -690,6 +725,9 @@ def subs(tier, only=None):
                  'terms per (constructor, outcome vector over the 14 targets)',
             min_nontrivial=5000, min_outcomes=4,
             required_tags=['M', 'Mr', 'MT', 'Mbare', 'and', 'or', 'not', 'switch', 'auto', 'match']),
+        Sub('reflected-operators', gen_reflected(), run_reflected,
+            rule='case = (left operand without an & of its own: Val / type / literal / callable, right operand from the M family, mode, target): '
+                 'x & m evaluates like And(x, m) - same order, same result', min_nontrivial=300, min_outcomes=2),
         Sub('reuse-histories', gen_histories(tier), run_history,
             rule='case = (mode, combinator term, order): ONE spec object evaluated against all fourteen targets in forward and reverse order (every ordered pair of targets occurs; '
                  'thorough: also an interleaved order with repeats); every call is compared with the reference for that target alone',
